@@ -100,10 +100,14 @@ Do(o) ==
 Tick == ~crashed /\ nops < MaxOps /\ nops' = nops + 1
 AllocStep == Tick /\ \E o \in OpsNow : o.a = "Alloc" /\ Do(o)
 FreeStep == Tick /\ \E o \in OpsNow : o.a = "Free" /\ Do(o)
-RemapStep == Tick /\ \E o \in OpsNow : o.a = "Remap" /\ Do(o)
+\* Remap onto the device that already holds the pages is a step of its own (old and new frames share a free list)
+SameDev(o) == /\ BufMapped(o.b, o.off, o.n) /\ Actual(o.dev)
+              /\ \A i \in 0..(o.n - 1) : pt[<<bufs[o.b].pid, bufs[o.b].v + o.off + i>>].dev = o.dev
+RemapStep == Tick /\ \E o \in OpsNow : o.a = "Remap" /\ ~SameDev(o) /\ Do(o)
+SameDevRemapStep == Tick /\ \E o \in OpsNow : o.a = "Remap" /\ SameDev(o) /\ Do(o)
 DistStep == Tick /\ \E o \in OpsNow : o.a = "Dist" /\ Do(o)
 MigStep == Tick /\ \E o \in OpsNow : o.a = "Mig" /\ Do(o)
-MCNext == AllocStep \/ FreeStep \/ RemapStep \/ DistStep \/ MigStep
+MCNext == AllocStep \/ FreeStep \/ RemapStep \/ SameDevRemapStep \/ DistStep \/ MigStep
 
 MCSpec == Init /\ [][MCNext]_<<vars, nops>>
 =============================================================================
